@@ -168,6 +168,50 @@ def scan_id_map(data: bytes, fields, pool):
     return out
 
 
+def scan_nested_counts(data: bytes, fields):
+    """Counts nested inside the metadata fields, with the byte span of the items they announce. Every string in these fields
+    is a string-pool reference, so the fields are plain sequences of varints:
+      field 4 (windows zones): ref ref ref count { ref ref count { ref }* }*
+      field 7 (zone-1970 locations): count { varint varint count { ref ref }* ref ref }*
+    -> list of dicts {field, off (of the count), items_end (end of the items it announces), n}"""
+    out = []
+    for f in fields:
+        try:
+            i, end = f["data_start"], f["end"]
+            if f["id"] == 4:
+                for _ in range(3):
+                    _, i = _varint(data, i)
+                n, i = _varint(data, i)
+                for _ in range(n):
+                    _, i = _varint(data, i)
+                    _, i = _varint(data, i)
+                    c_off = i
+                    c, i = _varint(data, i)
+                    for _ in range(c):
+                        _, i = _varint(data, i)
+                    if i > end:
+                        break
+                    out.append({"field": 4, "off": c_off, "items_end": i, "n": c})
+            elif f["id"] == 7:
+                n, i = _varint(data, i)
+                for _ in range(n):
+                    _, i = _varint(data, i)
+                    _, i = _varint(data, i)
+                    c_off = i
+                    c, i = _varint(data, i)
+                    for _ in range(2 * c):
+                        _, i = _varint(data, i)
+                    items_end = i
+                    _, i = _varint(data, i)
+                    _, i = _varint(data, i)
+                    if i > end:
+                        break
+                    out.append({"field": 7, "off": c_off, "items_end": items_end, "n": c})
+        except ValueError:
+            pass
+    return out
+
+
 # ---------------------------------------------------------------------------------------------------------------------
 # deterministic work budget: count function entries and loop back-edges with sys.monitoring
 
